@@ -29,6 +29,21 @@ def _task(t):
             versions[n] = f.version()
         except Exception as e:
             versions[n] = "EXC:%s" % type(e).__name__
+    if t.get("inproc_change"):
+        # a long-lived modifier clone next to the original; a tracked variable changes in the running process; both are
+        # asked again, in the given order
+        var, val, order = t["inproc_change"]
+        for n in t["query_order"]:
+            f = getattr(a, n)
+            c = f.partial()
+            c.version()
+            setattr(a, var, val)
+            pair = [("orig", f), ("clone", c)] if order == "orig-first" else [("clone", c), ("orig", f)]
+            for label, o in pair:
+                try:
+                    versions["%s/%s" % (n, label)] = o.version()
+                except Exception as e:
+                    versions["%s/%s" % (n, label)] = "EXC:%s" % type(e).__name__
     res = None
     if t.get("calls"):
         res = farm.do_calls(a, [(c[0], tuple(c[1]), {}, None) for c in t["calls"]], False)
